@@ -56,6 +56,10 @@ def modes_for(fl, pidkind):
         if pidkind != "norm":
             return ["zombie"]       # _psposix.pid_exists(0) is always true: PID 0 cannot be probed as gone
         return ["zombie", "gone"]   # probe == "does the pid still exist"
+    if pidkind == "norm":
+        # ... and the probe itself may fail (the quantifier says "any native call the method makes"): whatever it fails
+        # with, the PID is not known to be a zombie
+        return ["zombie", "alive", "gone", "probe-EPERM", "probe-EIO"]
     return ["zombie", "alive", "gone"]
 
 
@@ -892,6 +896,8 @@ def enumerate_flavour(flavour, tier, seed):
                 for i in range(len(pts)):
                     for f in faults:
                         for mode in modes_for(flavour, pidkind):
+                            if mode.startswith("probe-") and errclass(flavour, f, pts[i]) not in ("nsp", "enoent?"):
+                                continue          # (the probe is only made after a "no such process" failure)
                             case = dict(base, faults=[[i, f]], mode=mode)
                             r1 = run_once(env, case)
                             stats["fault_runs"] += 1
